@@ -20,6 +20,7 @@ import inspect
 import json
 import os
 import random
+import re
 import textwrap
 import types
 
@@ -368,6 +369,14 @@ class Shim:
         return b
 
 
+M4_OK = tlv_enc([(6, b"\x04")])
+
+
+def m4_of(spec):
+    """pairing data of the accessory's answer to the third message"""
+    return bytes.fromhex(spec["m4"]) if "m4" in spec else M4_OK
+
+
 class Responder:
     """The accessory side of one connection attempt (possibly several verify rounds)."""
 
@@ -384,7 +393,7 @@ class Responder:
         seq = t.get(6) if isinstance(t, dict) else None
         if seq == b"\x01":
             i = len(self.rounds)
-            rd = {"cpub": t.get(3), "m2": None, "m3": None}
+            rd = {"cpub": t.get(3), "m2": None, "m3": None, "m4": None}
             self.rounds.append(rd)
             if self.shim is not None:
                 self.shim.next_round()
@@ -404,8 +413,10 @@ class Responder:
                 if self.f3 == "silent":
                     return None
                 raise make_exc(self.f3)
-            return tlv_enc([(6, b"\x04")])
-        return tlv_enc([(6, b"\x04")])
+            spec = self.specs[min(len(self.rounds) - 1, len(self.specs) - 1)]
+            self.rounds[-1]["m4"] = m4_of(spec)
+            return self.rounds[-1]["m4"]
+        return M4_OK
 
 
 class Patches:
@@ -459,7 +470,7 @@ class Patches:
 def obs_record(p, resp, pt, exc, keys):
     """Canonical observation of one protocol run."""
     raw = pt.raw[-1] if pt.raw else None
-    rd = resp.rounds[-1] if resp.rounds else {"cpub": None, "m2": None, "m3": None}
+    rd = resp.rounds[-1] if resp.rounds else {"cpub": None, "m2": None, "m3": None, "m4": None}
     return {
         "proto": p,
         "raw": None if raw is None else ("Accept" if raw[0] == "ok" else classify(raw[1])),
@@ -800,6 +811,10 @@ def gen_cases(ctx, W, full, stride=1):
                  "EKeyError", "EIndexError", "EInvalidTag", "EOther", "EOther:TypeError", "ECancelled", "silent"):
         add("fault:first-exchange", {}, f1=name)
         add("fault:second-exchange", {}, f3=name)
+    # the accessory's answer to the third message (genuine first answer)
+    for name, m4 in (("error", "0601040701 02".replace(" ", "")), ("error-only", "070102"), ("backoff", "0601040701030802 0a00".replace(" ", "")),
+                     ("empty", ""), ("lone-tag", "06010407"), ("unknown-item", "060104110100")):
+        add("m4:" + name, {"m4": m4})
     # random multi-damage
     nf = 60 if not full else 400
     for _ in range(nf):
@@ -906,16 +921,34 @@ class Namer:
         return lit(b)
 
     def preamble(self):
-        return "".join("Definition %s : list N := %s.\n" % (n, lit(b)) for b, n in self.names.items())
+        return "".join("Definition %s : list N := Eval vm_compute in %s.\n" % (n, lit(b)) for b, n in self.names.items())
 
 
 def lit(b):
-    return "[" + ";".join(str(x) for x in b) + "]%N" if b else "(@nil N)"
+    """bytes -> Coq term of type list N.  Seven bytes per primitive 63-bit integer literal, unpacked
+    by B (COQ_PRELUDE) inside Coq: elaborating [..]%N literals directly is ~10x slower."""
+    if not b:
+        return "(@nil N)"
+    return "(B %d [%s])" % (len(b), ";".join(str(int.from_bytes(b[i:i + 7], "big")) for i in range(0, len(b), 7)))
+
+
+COQ_PRELUDE = """From Coq Require Import List NArith ZArith Bool Uint63. Import ListNotations.
+From PV Require Import Common.Cases C06.Model C06.Gen.
+Fixpoint bytes_of (k : nat) (x : int) (acc : list N) : list N :=
+  match k with O => acc | S k' => bytes_of k' (x >> 8)%uint63 (Z.to_N (to_Z (x land 255)%uint63) :: acc) end.
+Fixpoint unpack (n : nat) (l : list int) : list N :=
+  match l with
+  | [] => []
+  | [x] => bytes_of n x []
+  | x :: r => bytes_of 7 x [] ++ unpack (n - 7) r
+  end.
+Definition B (n : int) (l : list int) : list N := unpack (Z.to_nat (to_Z n)) l.
+"""
 
 
 def case_bytes(W, case, res):
     """all byte strings of the Coq term of a case (for the Namer), as a flat list."""
-    out = list(W.creds(case.get("cvar"))) + [res["cpriv"], res["cpub"], res["pd"]]
+    out = list(W.creds(case.get("cvar"))) + [res["cpriv"], res["cpub"], res["pd"], m4_of(case["spec"])]
     for tbl in res["judge"]["tables"].values():
         for ks, v in tbl:
             out += ks
@@ -968,8 +1001,8 @@ def coq_case(W, case, res, nm):
         raw = None if o["raw"] == "Accept" else o["raw"]
         top = "None" if o.get("no_top") else "(Some (%s, %s))" % (opte(o["surfaced"]), common.cbool(o["keys"]))
         obs.append("(%s, %s, %s, %s)" % (COQ_PROTO[o["proto"]], opte(raw), optb(o["m3"]), top))
-    return "(%s, %s, %s, %s, %s, %s, %s, [%s])" % (h, c, tab, opte(fault_coq(case.get("f1"))), t(res["pd"]),
-                                                     opte(fault_coq(case.get("f3"))), vt, "; ".join(obs))
+    return "(%s, %s, %s, %s, %s, %s, %s, %s, [%s])" % (h, c, tab, opte(fault_coq(case.get("f1"))), t(res["pd"]),
+                                                         opte(fault_coq(case.get("f3"))), t(m4_of(case["spec"])), vt, "; ".join(obs))
 
 
 def coq_files(items, per=150):
@@ -982,10 +1015,9 @@ def coq_files(items, per=150):
             for b in case_bytes(W, case, res):
                 nm.see(b)
         terms = [coq_case(W, case, res, nm) for W, case, res in chunk]
-        txt = ("From Coq Require Import List NArith Bool. Import ListNotations.\n"
-               "From PV Require Import Common.Cases C06.Model.\n%s"
+        txt = (COQ_PRELUDE + "%s"
                "Definition cases : list pcase := [\n%s\n].\n"
-               "Eval vm_compute in (bad_indices check_case cases).\n" % (nm.preamble(), ";\n".join(terms)))
+               "Eval vm_compute in (bad_indices (check_case cfg) cases).\n" % (nm.preamble(), ";\n".join(terms)))
         files.append(("cases_%03d" % (i // per), txt, chunk))
     return files
 
@@ -1209,6 +1241,34 @@ def the_call(fn, callee):
     return calls[0]
 
 
+def module_facts(module, cls):
+    """(chk_error, chk_m4) of one auth module, read off its source - fail closed."""
+    g = fn_ast(module._get_pairing_data)
+    if len([n for n in ast.walk(g) if isinstance(n, ast.Call) and gs.src(n.func).split(".")[-1] == "read_tlv"]) != 1:
+        raise gs.Unsupported("%s._get_pairing_data does not call read_tlv exactly once" % module.__name__)
+    ifs = [n for n in ast.walk(g) if isinstance(n, ast.If) and "Error" in gs.src(n.test)]
+    if not ifs:
+        chk_error = False
+    elif (len(ifs) == 1 and re.fullmatch(r"(\w+\.)*TlvValue\.Error in \w+", gs.src(ifs[0].test)) and not ifs[0].orelse
+          and len(ifs[0].body) == 1 and isinstance(ifs[0].body[0], ast.Raise) and isinstance(ifs[0].body[0].exc, ast.Call)
+          and gs.src(ifs[0].body[0].exc.func).split(".")[-1] == "AuthenticationError"):
+        chk_error = True
+    else:
+        raise gs.Unsupported("%s._get_pairing_data: unrecognised Error handling" % module.__name__)
+    v = fn_ast(cls.verify_credentials)
+    gp = sorted(n.lineno for n in ast.walk(v) if isinstance(n, ast.Call) and gs.src(n.func) == "_get_pairing_data")
+    v1 = [n.lineno for n in ast.walk(v) if isinstance(n, ast.Call) and gs.src(n.func).endswith(".verify1")]
+    if len(v1) != 1 or not gp or gp[0] > v1[0]:
+        raise gs.Unsupported("%s.verify_credentials: unrecognised shape" % cls.__name__)
+    if len(gp) == 1:
+        chk_m4 = False
+    elif len(gp) == 2 and gp[1] > v1[0]:
+        chk_m4 = True
+    else:
+        raise gs.Unsupported("%s.verify_credentials: %d calls of _get_pairing_data" % (cls.__name__, len(gp)))
+    return chk_error, chk_m4
+
+
 def translate_all():
     from pyatv.auth.hap_pairing import HapCredentials
     from pyatv.protocols.airplay import auth as ap_auth
@@ -1267,7 +1327,12 @@ def translate_all():
     vc, t = except_clauses(ap_auth.verify_connection)
     if len(t.body) != 1 or "verifier.verify_credentials()" not in gs.src(t.body[0]):
         raise gs.Unsupported("verify_connection: the try does not wrap exactly the verify_credentials() call")
-    return sk, {"error_handler": eh, "verify_connection": vc}
+    from pyatv.protocols.airplay.auth import hap as ap_hap
+    from pyatv.protocols.companion import auth as comp_auth
+    from pyatv.protocols.mrp import auth as mrp_auth
+    facts = {"MRP": module_facts(mrp_auth, MrpPairVerifyProcedure), "Companion": module_facts(comp_auth, CompanionPairVerifyProcedure),
+             "AirPlay": module_facts(ap_hap, AirPlayHapPairVerifyProcedure)}
+    return sk, {"error_handler": eh, "verify_connection": vc, "module_facts": facts}
 
 
 def effects_in(cmd):
@@ -1295,6 +1360,9 @@ def gen(ctx):
              "From PV Require Import Common.Skeleton C06.Model."]
     for name, (cmd, labels) in sk.items():
         lines.append("Definition sk_%s : cmd := %s." % (name, gs.to_coq(cmd)))
+    facts = clauses.pop("module_facts")
+    lines.append("Definition cfg (p : proto) : pcfg := match p with %s end." % " ".join(
+        "| %s => {| chk_error := %s; chk_m4 := %s |}" % (p, common.cbool(f[0]), common.cbool(f[1])) for p, f in facts.items()))
     for name, cl in clauses.items():
         lines.append("Definition clauses_%s : list clause := [%s]." % (
             name, "; ".join("([%s], %s)" % ("; ".join(CLS[n] for n in names), act) for names, act in cl)))
@@ -1303,6 +1371,7 @@ def gen(ctx):
     if not os.path.exists(path) or open(path).read() != txt:
         with open(path, "w") as f:
             f.write(txt)
+    clauses["module_facts"] = {p: {"chk_error": f[0], "chk_m4": f[1]} for p, f in facts.items()}
     return sk, clauses
 
 
@@ -1425,6 +1494,8 @@ def run(ctx):
     ctx.extra["assumed_not_to_fail"] = NOFAIL + gs.DEFAULT_NOFAIL
 
     coq_items = []
+    import time
+    t_build = time.time() - ctx.t0
     # 1. corpus (pre-fix witnesses and past disagreements) - all protocols incl. the remote-control set-up
     for case, protos in load_corpus_cases():
         res = eval_one((case, tuple(protos)))
@@ -1463,8 +1534,13 @@ def run(ctx):
             ctx.case((rcase["family"], id_len), nontrivial=False)
             ctx.count("oracle-only")
     # 3. model vs implementation, evaluated inside Coq
+    t_impl = time.time() - ctx.t0 - t_build
     files = coq_files(coq_items, per=100)
     res = common.coq_run_many([(n, t) for n, t, _ in files], ctx.pid, par=16)
+    ctx.extra["phase_seconds"] = {"build": round(t_build, 1), "implementation_runs": round(t_impl, 1),
+                                  "coq_cases": round(time.time() - ctx.t0 - t_build - t_impl, 1),
+                                  "coq_case_bytes": sum(len(t) for _, t, _ in files)}
+    ctx.note("phases", ctx.extra["phase_seconds"])
     nbad = 0
     for name, txt, chunk in files:
         rc, out = res[name]
